@@ -199,6 +199,145 @@ def through_fields(chk):
         shutil.rmtree(work, ignore_errors=True)
 
 
+def field_sites():
+    """the real fixed-width text fields of the format, each as (name, width, encode(text) -> bytes, decode(bytes) -> text):
+    a record that contains the field is written by the library with the given text, and read by the library's decoder
+    of that record.  The second item is used where there are several, so that a field is not the first thing read."""
+    import datetime as _dt
+    import io
+    import numpy as np
+    from basictdf.basictdf import TdfEntry
+    from basictdf.tdfBlock import BlockType
+    from basictdf.tdfData3D import Data3D, Data3dBlockFormat, MarkerTrack
+    from basictdf.tdfEMG import EMG, EMGTrack
+    from basictdf.tdfEvents import Event, EventsDataType, TemporalEventsData
+    from basictdf.tdfForce3D import ForceTorque3D, ForceTorqueTrack
+    from basictdf.tdfForcePlatformsCalibration import ForcePlatformInfo, ForcePlatformsCalibrationDataBlock
+    from basictdf.tdfOpticalSystem import OpticalChannelData, OpticalSetupBlock
+    from basictdf.tdfTypes import CameraViewPort
+    now = _dt.datetime.fromtimestamp(1_600_000_000)
+
+    def enc(o):
+        f = io.BytesIO()
+        o._write(f)
+        return f.getvalue()
+
+    def f32(*shape):
+        return np.arange(1, 1 + int(np.prod(shape)), dtype="<f4").reshape(shape)
+
+    def d3(fmt):
+        def make(t):
+            d = Data3D(frequency=50, nFrames=3, volume=f32(3), rotationMatrix=f32(3, 3), translationVector=f32(3), format=fmt)
+            d.add_track(MarkerTrack("first", f32(3, 3)))
+            d.add_track(MarkerTrack(t, f32(3, 3)))
+            return enc(d)
+        return make, lambda b: Data3D._build(io.BytesIO(b), fmt.value)[1].label
+
+    def em(t):
+        e = EMG(frequency=1000, nSamples=4)
+        e.addSignal(EMGTrack("first", f32(4)))
+        e.addSignal(EMGTrack(t, f32(4)))
+        return enc(e)
+
+    def ft(t):
+        b = ForceTorque3D(frequency=100, nFrames=2, volume=f32(3), rotationMatrix=f32(3, 3), translationVector=f32(3))
+        b.add_track(ForceTorqueTrack("first", f32(2, 3), f32(2, 3), f32(2, 3)))
+        b.add_track(ForceTorqueTrack(t, f32(2, 3), f32(2, 3), f32(2, 3)))
+        return enc(b)
+
+    def ev(t):
+        b = TemporalEventsData()
+        b.events = [Event("first", np.array([1.0, 2.0], dtype="<f4"), EventsDataType.eventSequence),
+                    Event(t, np.array([3.0], dtype="<f4"), EventsDataType.singleEvent)]
+        return enc(b)
+
+    def pc(t):
+        b = ForcePlatformsCalibrationDataBlock()
+        b.add_platform(ForcePlatformInfo("first", f32(2), f32(4, 3)))
+        b.add_platform(ForcePlatformInfo(t, f32(2), f32(4, 3)))
+        return enc(b)
+
+    def osb(which):
+        def make(t):
+            vp = CameraViewPort(np.array([0, 0], dtype="<i4"), np.array([4, 4], dtype="<i4"))
+            names = ["lens", "type", "name"]
+            names2 = list(names)
+            names2[which] = t
+            return enc(OpticalSetupBlock(channels=[OpticalChannelData(1, *names, vp), OpticalChannelData(2, *names2, vp)]))
+        attr = ("lens_name", "camera_type", "camera_name")[which]
+        return make, lambda b: getattr(OpticalSetupBlock._build(io.BytesIO(b), 1).channels[1], attr)
+
+    sites = [("comment of a table entry", 256,
+              lambda t: enc(TdfEntry(BlockType.temporalEventsData, 1, 4096, 8, now, now, now, t)),
+              lambda b: TdfEntry._build(io.BytesIO(b)).comment),
+             ("label of the second event", 256, ev, lambda b: TemporalEventsData._build(io.BytesIO(b), 1).events[1].label),
+             ("label of the second EMG signal", 256, em, lambda b: EMG._build(io.BytesIO(b), 1)[1].label),
+             ("label of the second force track", 256, ft, lambda b: ForceTorque3D._build(io.BytesIO(b), 1)[1].label),
+             ("label of the second platform", 256, pc, lambda b: ForcePlatformsCalibrationDataBlock._build(io.BytesIO(b), 2)._platforms[1].label)]
+    for fmt in (Data3dBlockFormat.byTrack, Data3dBlockFormat.byTrackWithoutLinks):
+        mk, dc = d3(fmt)
+        sites.append(("label of the second marker track (%s)" % fmt.name, 256, mk, dc))
+    for which, nm in enumerate(("lens name", "camera type", "camera name")):
+        mk, dc = osb(which)
+        sites.append(("%s of the second optical channel" % nm, 32, mk, dc))
+    return sites
+
+
+def raw_fields(chk):
+    """the read side through the decoders that own the fields: for ALL byte strings of the field width (junk behind the
+    terminator, no terminator at all, bytes cp1252 cannot decode, an empty text) the decoder of the record returns what
+    Str.v's read returns for the field — cut at the first NUL, cp1252 — or raises where the model refuses"""
+    rng = common.rng_for(chk.seed, "C13raw")
+    try:
+        sites = field_sites()
+    except Exception as e:
+        chk.violation("a record with valid short labels cannot be built or written: " + common.exc_info(e), {"site": "field_sites"}, False)
+        return
+    chars = [bytes([b]) for b in range(1, 256)]
+    for name, w, make, decode in sites:
+        try:
+            a, b = make("A" * (w - 1)), make("B" * (w - 1))
+            diff = [i for i in range(min(len(a), len(b))) if a[i] != b[i]]
+            ok = len(a) == len(b) and len(diff) == w - 1 and diff == list(range(diff[0], diff[0] + w - 1))
+        except Exception as e:
+            chk.violation("%s: a text of %d characters is refused: %s" % (name, w - 1, common.exc_info(e)), {"site": name}, False)
+            return
+        if not ok:
+            chk.violation("%s: the field does not occupy %d consecutive bytes of the record" % (name, w), {"site": name}, False)
+            return
+        start = diff[0]
+        fields = []
+        for text in (b"", b"x", b"Right Heel Strike", b"caf\xe9 \x80", b"y" * (w - 2), b"z" * (w - 1)):
+            n = len(text)
+            fields.append(text + b"\0" * (w - n))                                            # as the library writes it
+            if n + 1 < w:
+                fields.append(text + b"\0" + bytes(rng.choice((65, 0xFF, 0x81, 1)) for _ in range(w - n - 1)))   # junk behind the NUL
+                fields.append(text + b"\0" + b"\0" * (w - n - 2) + b"t")                         # ... only in the very last byte
+                fields.append(text + b"\0\0" + b"old label"[: max(0, w - n - 2)] + b"\0" * max(0, w - n - 11))
+        fields.append(bytes(rng.randrange(1, 256) for _ in range(w)))                        # no terminator
+        fields.append(b"ok\x81" + b"\0" * (w - 3))                                           # not decodable in front of the NUL
+        fields.append(b"ok\0\x81" + b"\0" * (w - 4))                                         # ... behind it
+        for _ in range(10 if chk.tier == "quick" else 200):
+            n = rng.choice((0, 1, 2, w // 2, w - 2, w - 1))
+            body = b"".join(rng.choice(chars) for _ in range(n))
+            fields.append((body + b"\0" + bytes(rng.getrandbits(8) for _ in range(w)))[:w])
+        want = common.run_model_sharded([(2, [w, list(fb)]) for fb in fields])
+        for fb, m in zip(fields, want):
+            rec = a[:start] + fb + a[start + w:]
+            try:
+                got = [0, [ord(c) for c in decode(rec)]]
+            except Exception as e:
+                got = [err_code(e)]
+            chk.count("read through the decoder that owns the field: %s" % ("text" if got[0] == 0 else "refused"))
+            chk.note_case(("raw field", name, fb), any(x >= 128 for x in fb) or 0 not in fb or any(fb[fb.index(0):]) )
+            if got != m:
+                pre = fb[:fb.index(0)] if 0 in fb else fb
+                chk.violation("%s: the field bytes %r... read as %s, the text in the field is %r" % (
+                    name, fb[:24], ("%r" % "".join(map(chr, got[1]))[:40]) if got[0] == 0 else "an error (%d)" % got[0], pre[:40]),
+                    {"site": name, "width": w, "field": list(fb), "got": got, "model": m}, True)
+                return
+
+
 def gen_cases(chk):
     """Returns list of (kind, w, payload) with kind in {'w','r'}"""
     tier, seed = chk.tier, chk.seed
@@ -417,7 +556,7 @@ def run(chk):
                 "NUL / non-encodable at each position, random strings; read: every byte in small fields, random "
                 "fields with/without terminator; non-trivial = contains a non-ASCII char or is within 1 of the width "
                 "(write) / contains a byte >=128 or no NUL (read); each case run through BTSString.write/bwrite or "
-                "read/bread and through the extracted Str.v; plus ordinary reads interleaved with reads of the same field through the `encoding` parameter (five other code pages), in both orders; texts beginning like a signature of another encoding (byte-order marks, escapes); and the same write / read-back through the real fields: entry comment, event label, 32-byte camera and lens names, add_block + reopen")
+                "read/bread and through the extracted Str.v; plus ordinary reads interleaved with reads of the same field through the `encoding` parameter (five other code pages), in both orders; texts beginning like a signature of another encoding (byte-order marks, escapes); and the same write / read-back through the real fields: entry comment, event label, 32-byte camera and lens names, add_block + reopen; and the read side through the decoders that own the fields (entry comment, event / EMG / force / marker / platform labels, the three 32-byte names of an optical channel): library-written records with the field's bytes replaced by terminated texts with junk behind the NUL, unterminated and undecodable fields, against Str.v's read")
     chk.assumptions = ["cp1252 table of the running CPython is the reference for 'encodable'"]
     cases = gen_cases(chk)
     dis = evaluate(chk, cases)
@@ -435,6 +574,7 @@ def run(chk):
     report(chk, dis)
     stateless(chk)
     through_fields(chk)
+    raw_fields(chk)
     chk.exhaustive = chk.tier == "thorough"
 
 
